@@ -2,7 +2,7 @@
 
 History monitor against a small string model of disable()/enable(): contexts with unix_disabled (both marker styles) or
 django_disabled at every list position; originals from every scheme of the context plus None, empty, already-disabled
-strings and both markers; ALL disable/enable sequences to depth 5 and random longer ones.  After every step: the string
+strings and both markers; ALL disable/enable sequences to depth 4 (quick) / 7 (thorough) and random longer ones.  After every step: the string
 is recognised as disabled iff the model says so, never verifies any password (empty, the original password, the hash
 text itself), enable() restores exactly the embedded original or raises ValueError.  verify(pw, None) must be False and
 is observed (call probe on the default scheme's verify) to cost a dummy verification - also after the configuration of
@@ -152,7 +152,7 @@ def histories(run, disabled, marker, part, parts):
     from passlib.context import CryptContext
     rng = run.rng(f"h:{disabled}:{marker}:{part}")
     lay = layouts(rng, disabled)
-    depth = 5 if run.tier == "thorough" else 4
+    depth = 7 if run.tier == "thorough" else 4
     seqs = [seq for d in range(1, depth + 1) for seq in itertools.product("DE", repeat=d)]
     model = UnixModel(marker) if disabled == "unix_disabled" else None
     for li, (schemes, pos, default) in enumerate(lay):
@@ -286,7 +286,7 @@ def dummy(run):
     from passlib.context import CryptContext
     import passlib.hash as PH
     rng = run.rng("dummy")
-    for i in range(30 if run.tier == "quick" else 300):
+    for i in range(30 if run.tier == "quick" else 3000):
         base1, base2 = rng.sample([PH.md5_crypt, PH.sha256_crypt, PH.des_crypt, PH.ldap_salted_sha1, PH.sha1_crypt], 2)
         c1, calls1 = make_counting(base1)
         c2, calls2 = make_counting(base2)
@@ -405,7 +405,7 @@ def body(run):
     run.parallel("checks.c18", "histories", [dict(disabled=d, marker="!", part=0, parts=8) for d in ("unix_disabled", "django_disabled")], timeout=900, env={"PASSLIB_MAX_PASSWORD_SIZE": "64"})
     run.require("long_original_cases", 6)
     run.exhaustive = True
-    run.extra["exhaustive_scope"] = "all disable/enable sequences up to depth 4 (quick) / 5 (thorough) from every original kind, for every position of the disabled hasher in lists of 1-3 real schemes"
+    run.extra["exhaustive_scope"] = "all disable/enable sequences up to depth 4 (quick) / 7 (thorough) from every original kind, for every position of the disabled hasher in lists of 1-3 real schemes"
     run.require("history_steps", 5000)
     run.require("disabled_verifies", 10000)
     run.require("none_hash_probes", 100)
